@@ -194,11 +194,30 @@ def gen_object(ctx, otype):
         alg = r.choice([3, 3, 2, 0x10])
         ln = r.choice(SYM_SIZES[alg])
         o = {'kft': 1, 'value': ctx.rbytes(ln // 8), 'alg': alg, 'len': ln}
-        if otype == 'SymmetricKey' and r.random() < 0.06:
+        x = r.random()
+        if otype == 'SymmetricKey' and x < 0.06:
             # legal but unusual: Transparent Symmetric Key, whose key
             # material is a structure {Key: bytes}
             o['kft'] = 7
             o['km_struct'] = True
+        elif x < 0.13:
+            # a key registered in wrapped form (byte-string key value +
+            # key wrapping data, optional parts present or absent)
+            w = {'method': r.choice([1, 1, 2, 3])}
+            if r.random() < 0.8:
+                w['enc'] = {'uid': ctx.ref(ctx.pick_obj(['SymmetricKey'])),
+                            'cp': r.choice([None, {'mode': 0xD},
+                                            {'mode': 1, 'padding': 3,
+                                             'iv_len': 0}])}
+            if r.random() < 0.25:
+                w['mac'] = {'uid': '77', 'cp': {'hash': 6}}
+                w['sig'] = ctx.rbytes(16)
+            if r.random() < 0.4:
+                w['iv'] = ctx.rbytes(r.choice([8, 16]))
+            if r.random() < 0.6:
+                w['encoding'] = r.choice([1, 2])
+            o['wrap'] = w
+            o['value'] = ctx.rbytes(ln // 8 + 8)
         if otype == 'SplitKey':
             o.update({'parts': r.choice([2, 3, 5]), 'part_id': r.choice(
                 [1, 2]), 'threshold': r.choice([1, 2]),
@@ -486,4 +505,8 @@ def gen_request(ctx, actor=None, ver=None, max_items=3, weights=None,
             req['order'] = r.random() < 0.5
     if r.random() < 0.1:
         req['ts'] = r.choice([0, -5, -30])
+    if r.random() < 0.06:
+        req['cred'] = ['user%d' % actor, 'pw-' + ctx.rbytes(6)]
+    if r.random() < 0.04:
+        req['maxresp'] = r.choice([4096, 100000, 1 << 20])
     return req
